@@ -589,6 +589,25 @@ def _r3(ck: Checker, prog: Program, public: List[str]):
         and parent_of(parent_of(loads[0])) is f.node and loads[0].args and isinstance(loads[0].args[0], ast.Name) and loads[0].args[0].id == f.params[0]
     if good:
         ck.ok("C15.R3", fq, "settings_object.load(fname); return settings_object")
+        # ... and what is returned is what was loaded: nothing is stored into the object after load()
+        obj = rets[0].value.id
+        load_st = parent_of(loads[0])
+        while not isinstance(load_st, ast.stmt):
+            load_st = parent_of(load_st)
+        idx = f.node.body.index(load_st)
+        after = f.node.body[idx + 1:]
+        touched = [x for st in after for x in ast.walk(st)
+                   if (isinstance(x, (ast.Attribute, ast.Subscript)) and isinstance(x.ctx, (ast.Store, ast.Del)) and unparse(x).startswith(obj + (".", "[")[isinstance(x, ast.Subscript)]))
+                   or (isinstance(x, ast.Call) and ((isinstance(x.func, ast.Name) and x.func.id in ("setattr", "delattr") and x.args and unparse(x.args[0]) == obj)
+                                                    or (isinstance(x.func, ast.Attribute) and unparse(x.func.value) in (obj, obj + ".__dict__") and x.func.attr in ("update", "__setattr__", "pop", "clear"))))]
+        if touched:
+            st0 = touched[0]
+            while not isinstance(st0, ast.stmt):
+                st0 = parent_of(st0)
+            ck.violation("C15.R3", fq, norm_key(st0, 90), f"`{norm_key(st0, 80)}` changes the object after it was loaded: an attribute of the object read back no longer "
+                         f"equals the one that was saved", loc=f.loc(st0))
+        else:
+            ck.ok("C15.R3", fq, "the loaded object is returned untouched", nontrivial=False)
     else:
         ck.violation("C15.R3", fq, "load and return", "the constructed object is not unconditionally load()ed from the same file and returned", loc=f.loc())
     # decorators on the I/O path
